@@ -12,8 +12,8 @@ one lemma per Go function).
 
 **Classes of paths** (`Exec.Lax.AccG`, decidable predicates on the AST):
 * `Accessor`: chains of `$`, `@`, `.key`, `.*`, `[*]`, `.**{a to b}` (any bounds), subscripts
-  `[i, j to k, last]` whose bounds are int32 literals or `last`, the literals `true false null "s" 1 1.5`,
-  `.type()`, `.size()`;
+  `[i, j to k, last]` whose bounds are numeric literals in the int32 range or `last`, the literals
+  `true false null "s" 1 1.5`, `.type()`, `.size()`;
 * `AccessorF`: the same plus filters `?(p)` and predicates `p` in chain position (predicate paths such
   as `$.a.b == 1` or `exists($.a)`), `p` built from `&&`, `||`, `!`, `is unknown`, `exists(path)`,
   `path ⋈ path` for `== != < <= > >=` and `starts with`, `path like_regex "…"`, where the operand paths
@@ -22,7 +22,8 @@ one lemma per Go function).
 **Theorems**
 * executor level (`xItem`, every context, state, value, result list, fuel):
   `lax_path_total` — in lax mode with `ignoreStructuralErrors` set, an `Accessor` path returns no error
-  and a status other than `failed`, unless the run was cancelled or ran out of fuel (sticky flags);
+  and a status other than `failed`, unless the run was cancelled or ran out of fuel (sticky flags;
+  `lax_path_total_never_done`: with `budget = none`, fuel is the only proviso);
   `lax_filter_path_total` — the same for `AccessorF` over plain documents;
   `path_error_class` — both modes: the only possible error is the suppressible one;
   `path_never_panics`, `path_never_cancelled` (a context that is never done);
@@ -51,39 +52,58 @@ open Exec Api Exec.Lax
 /-! ## the three instances of the standing assumptions -/
 
 /-- `Accessor` paths over documents without huge arrays -/
-theorem env_len (c : Ctx) (hroot : lenOK c.root = true) : Env (fun v => lenOK v = true) c false :=
-  ⟨docClass_lenOK, hroot, fun _ _ h => (lenOK_arr h).1, fun h => by cases h⟩
+theorem env_len (c : Ctx) (hroot : lenOK c.root = true) : Env (fun v => lenOK v = true) (fun _ => True) c false :=
+  ⟨docClass_lenOK, hroot, fun _ _ h => (lenOK_arr h).1, fun h => (by cases h), fun _ _ => trivial,
+   fun _ _ _ _ => trivial, fun h => (by cases h)⟩
 
 /-- strict mode: `Accessor` paths over all documents -/
-theorem env_all (c : Ctx) (hstrict : c.lax = false) : Env (fun _ => True) c false :=
-  ⟨docClass_true, trivial, fun h => (by rw [hstrict] at h; cases h), fun h => by cases h⟩
+theorem env_all (c : Ctx) (hstrict : c.lax = false) : Env (fun _ => True) (fun _ => True) c false :=
+  ⟨docClass_true, trivial, fun h => (by rw [hstrict] at h; cases h), fun h => (by cases h), fun _ _ => trivial,
+   fun _ _ _ _ => trivial, fun h => (by cases h)⟩
 
 /-- `AccessorF` paths over plain documents -/
 theorem env_plain (c : Ctx) (hroot : plainOK c.root = true)
-    (hre : ∀ p fl t, (c.regexMatch p fl t).isSome = true) : Env (fun v => plainOK v = true) c true :=
-  ⟨docClass_plainG false, hroot, fun _ _ h => (plainG_arr h).1, fun _ => filterOK_plain c hre⟩
+    (hre : ∀ p fl t, (c.regexMatch p fl t).isSome = true) :
+    Env (fun v => plainOK v = true) (fun v => plainOK v = true) c true :=
+  ⟨docClass_plainG false, hroot, fun _ _ h => (plainG_arr h).1, fun _ => filterOK_plain c hre, fun _ h => h,
+   fun _ h => (plainG_arr h).2, fun _ _ h => h⟩
 
 /-- `AccessorF` paths over plain documents with `json.Number`s, given the `strconv` law of C05 -/
 theorem env_plainNum (c : Ctx) (hroot : plainNumOK c.root = true)
     (hre : ∀ p fl t, (c.regexMatch p fl t).isSome = true) (hlaw : C05.IntTextIsFloat) :
-    Env (fun v => plainNumOK v = true) c true :=
+    Env (fun v => plainNumOK v = true) (fun v => plainNumOK v = true) c true :=
   ⟨docClass_plainG true, hroot, fun _ _ h => (plainG_arr h).1,
-   fun _ => filterOK_plainNum c hre (fun op l r => C05.compare_never_panics hlaw c op l r)⟩
+   fun _ => filterOK_plainNum c hre (fun op l r => C05.compare_never_panics hlaw c op l r), fun _ h => h,
+   fun _ h => (plainG_arr h).2, fun _ _ h => h⟩
 
 /-! ## the executor -/
 
 /-- **Lax totality, executor level.**  An accessor path evaluated in lax mode returns no error and
-    never `statusFailed`, unless the run was cancelled or the model ran out of fuel.
-    (`hf`: the items already collected are in the document class too.) -/
+    never `statusFailed`, unless the run was cancelled or the model ran out of fuel. -/
 theorem lax_path_total (c : Ctx) (fuel : Nat) (s : St) (n : Node) (v : Item) (f : Found) (u : Bool)
     (hlax : c.lax = true) (hig : s.ignoreSE = true) (hn : Accessor n = true)
     (hv : lenOK v = true) (hcur : lenOK s.current = true) (hroot : lenOK c.root = true)
-    (hf : AllD (fun v => lenOK v = true) f)
     (hoof : (xItem c fuel s n v f u).st.oof = false) (hsc : (xItem c fuel s n v f u).st.sawCancel = false) :
     (xItem c fuel s n v f u).err = none ∧ (xItem c fuel s n v f u).status ≠ .failed :=
-  (((xItem_lt (env_len c hroot) fuel s n v f u hn hv hcur hf).1).2 (by simp [dirty, hoof, hsc])).2 ⟨hlax, hig⟩
+  (((xItem_lt (env_len c hroot) fuel s n v f u hn hv hcur (fun _ _ _ _ => trivial)).1).2
+    (by simp [dirty, hoof, hsc])).2 ⟨hlax, hig⟩
 
-/-- the same for paths with filters, over plain documents -/
+/-- the same, stated on the start state: a context that is never done (`budget = none`), not yet
+    cancelled; then fuel is the only proviso -/
+theorem lax_path_total_never_done (c : Ctx) (fuel : Nat) (s : St) (n : Node) (v : Item) (f : Found) (u : Bool)
+    (hlax : c.lax = true) (hig : s.ignoreSE = true) (hn : Accessor n = true)
+    (hv : lenOK v = true) (hcur : lenOK s.current = true) (hroot : lenOK c.root = true)
+    (hb : s.budget = none) (hsc : s.sawCancel = false)
+    (hoof : (xItem c fuel s n v f u).st.oof = false) :
+    (xItem c fuel s n v f u).err = none ∧ (xItem c fuel s n v f u).status ≠ .failed ∧
+    (xItem c fuel s n v f u).st.panicked = s.panicked := by
+  have h := xItem_lt (env_len c hroot) fuel s n v f u hn hv hcur (fun _ _ _ _ => trivial)
+  have hsc' : (xItem c fuel s n v f u).st.sawCancel = false := by rw [(h.1.1.budget hb).2]; exact hsc
+  have := (h.1.2 (by simp [dirty, hoof, hsc'])).2 ⟨hlax, hig⟩
+  exact ⟨this.1, this.2, h.1.1.panicked⟩
+
+/-- the same for paths with filters and predicates, over plain documents (`hf`: the items already
+    collected are plain too — they can become operands of a comparison) -/
 theorem lax_filter_path_total (c : Ctx) (fuel : Nat) (s : St) (n : Node) (v : Item) (f : Found) (u : Bool)
     (hlax : c.lax = true) (hig : s.ignoreSE = true) (hn : AccessorF n = true)
     (hre : ∀ p fl t, (c.regexMatch p fl t).isSome = true)
@@ -94,22 +114,22 @@ theorem lax_filter_path_total (c : Ctx) (fuel : Nat) (s : St) (n : Node) (v : It
   (((xItem_lt (env_plain c hroot hre) fuel s n v f u hn hv hcur hf).1).2 (by simp [dirty, hoof, hsc])).2 ⟨hlax, hig⟩
 
 /-- a context that is never done is never seen cancelled -/
-theorem path_never_cancelled {D : Item → Prop} {c : Ctx} {ff : Bool} (E : Env D c ff) (fuel : Nat) (s : St)
+theorem path_never_cancelled {D F : Item → Prop} {c : Ctx} {ff : Bool} (E : Env D F c ff) (fuel : Nat) (s : St)
     (n : Node) (v : Item) (f : Found) (u : Bool) (hn : AccG ff n = true) (hv : D v) (hcur : D s.current)
-    (hf : AllD D f) (hb : s.budget = none) : (xItem c fuel s n v f u).st.sawCancel = s.sawCancel :=
+    (hf : AllD F f) (hb : s.budget = none) : (xItem c fuel s n v f u).st.sawCancel = s.sawCancel :=
   ((xItem_lt E fuel s n v f u hn hv hcur hf).1.1.budget hb).2
 
 /-- a path of these classes never panics, lax or strict -/
-theorem path_never_panics {D : Item → Prop} {c : Ctx} {ff : Bool} (E : Env D c ff) (fuel : Nat) (s : St)
+theorem path_never_panics {D F : Item → Prop} {c : Ctx} {ff : Bool} (E : Env D F c ff) (fuel : Nat) (s : St)
     (n : Node) (v : Item) (f : Found) (u : Bool) (hn : AccG ff n = true) (hv : D v) (hcur : D s.current)
-    (hf : AllD D f) : (xItem c fuel s n v f u).st.panicked = s.panicked :=
+    (hf : AllD F f) : (xItem c fuel s n v f u).st.panicked = s.panicked :=
   (xItem_lt E fuel s n v f u hn hv hcur hf).1.1.panicked
 
 /-- **Error class, both modes.**  The only error such a path can return (run not cancelled, fuel not
     exhausted) is the suppressible one -/
-theorem path_error_class {D : Item → Prop} {c : Ctx} {ff : Bool} (E : Env D c ff) (fuel : Nat) (s : St)
+theorem path_error_class {D F : Item → Prop} {c : Ctx} {ff : Bool} (E : Env D F c ff) (fuel : Nat) (s : St)
     (n : Node) (v : Item) (f : Found) (u : Bool) (hn : AccG ff n = true) (hv : D v) (hcur : D s.current)
-    (hf : AllD D f)
+    (hf : AllD F f)
     (hoof : (xItem c fuel s n v f u).st.oof = false) (hsc : (xItem c fuel s n v f u).st.sawCancel = false) :
     (xItem c fuel s n v f u).err = none ∨ (xItem c fuel s n v f u).err = some .verbose :=
   ((xItem_lt E fuel s n v f u hn hv hcur hf).1.2 (by simp [dirty, hoof, hsc])).1
@@ -117,17 +137,17 @@ theorem path_error_class {D : Item → Prop} {c : Ctx} {ff : Bool} (E : Env D c 
 /-! ## the entry points -/
 
 section Entry
-variable {D : Item → Prop} {ff : Bool}
+variable {D F : Item → Prop} {ff : Bool}
 
 /-- `exec.query` (which in strict mode runs a probe as a collecting run) keeps the invariant -/
-theorem query_lt {c : Ctx} (E : Env D c ff) (fuel : Nat) (s : St) (n : Node) (v : Item) (f : Found)
-    (hn : AccG ff n = true) (hv : D v) (hcur : D s.current) (hf : AllD D f) :
-    Out D c s (query c fuel s n v f) := by
+theorem query_lt {c : Ctx} (E : Env D F c ff) (fuel : Nat) (s : St) (n : Node) (v : Item) (f : Found)
+    (hn : AccG ff n = true) (hv : D v) (hcur : D s.current) (hf : AllD F f) :
+    Out F c s (query c fuel s n v f) := by
   unfold query
   split
   · rename_i hcond
     have hnl : ¬ Lx c s := fun h => by simp [h.1] at hcond
-    have hr : Out D c s (executeItem c (xItem c fuel) s n v (some [])) :=
+    have hr : Out F c s (executeItem c (xItem c fuel) s n v (some [])) :=
       xItem_lt E fuel s n v _ _ hn hv hcur AllD.nil
     try dsimp only
     split
@@ -137,9 +157,9 @@ theorem query_lt {c : Ctx} (E : Env D c ff) (fuel : Nat) (s : St) (n : Node) (v 
       · exact ⟨Out3.ret hr.1.1 _ _ (Or.inl rfl) (fun h => absurd h hnl), AllD.none⟩
   · exact xItem_lt E fuel s n v _ _ hn hv hcur hf
 
-theorem runRes_lt (e : Entry) (fuel : Nat) (a : AST) (doc : Item) (o : Opts) (E : Env D (mkCtx a doc o) ff)
+theorem runRes_lt (e : Entry) (fuel : Nat) (a : AST) (doc : Item) (o : Opts) (E : Env D F (mkCtx a doc o) ff)
     (hacc : AccG ff a.root = true) (hdoc : D doc) :
-    Out D (mkCtx a doc o) (initSt a doc o) (runRes e fuel a doc o) := by
+    Out F (mkCtx a doc o) (initSt a doc o) (runRes e fuel a doc o) := by
   unfold runRes
   cases e <;> simp only
   · exact query_lt E _ _ _ _ _ hacc hdoc hdoc AllD.nil
@@ -151,7 +171,7 @@ theorem runRes_lt (e : Entry) (fuel : Nat) (a : AST) (doc : Item) (o : Opts) (E 
     · exact query_lt E _ _ _ _ _ hacc hdoc hdoc AllD.none
 
 /-- everything the invariant says about the run underlying an entry point -/
-theorem run_facts (e : Entry) (fuel : Nat) (a : AST) (doc : Item) (o : Opts) (E : Env D (mkCtx a doc o) ff)
+theorem run_facts (e : Entry) (fuel : Nat) (a : AST) (doc : Item) (o : Opts) (E : Env D F (mkCtx a doc o) ff)
     (hacc : AccG ff a.root = true) (hdoc : D doc) :
     (runRes e fuel a doc o).st.panicked = false ∧
     (o.budget = none → (runRes e fuel a doc o).st.sawCancel = false) ∧
@@ -164,7 +184,7 @@ theorem run_facts (e : Entry) (fuel : Nat) (a : AST) (doc : Item) (o : Opts) (E 
   exact ⟨h.1, fun hlax => h.2 ⟨hlax, hlax⟩⟩
 
 /-- `Query`, lax, generic in the class -/
-theorem query_total (fuel : Nat) (a : AST) (doc : Item) (o : Opts) (E : Env D (mkCtx a doc o) ff)
+theorem query_total (fuel : Nat) (a : AST) (doc : Item) (o : Opts) (E : Env D F (mkCtx a doc o) ff)
     (hacc : AccG ff a.root = true) (hdoc : D doc) (hlax : a.lax = true) (hb : o.budget = none) :
     (∃ xs, queryWith fuel a doc o = .items xs) ∨ queryWith fuel a doc o = .outOfFuel := by
   obtain ⟨hp, hsc, h⟩ := run_facts .query fuel a doc o E hacc hdoc
@@ -177,7 +197,7 @@ theorem query_total (fuel : Nat) (a : AST) (doc : Item) (o : Opts) (E : Env D (m
     have := (h hoof (hsc hb)).2 hlax
     simp [hoof, hp, this.1]
 
-theorem first_total (fuel : Nat) (a : AST) (doc : Item) (o : Opts) (E : Env D (mkCtx a doc o) ff)
+theorem first_total (fuel : Nat) (a : AST) (doc : Item) (o : Opts) (E : Env D F (mkCtx a doc o) ff)
     (hacc : AccG ff a.root = true) (hdoc : D doc) (hlax : a.lax = true) (hb : o.budget = none) :
     (∃ x, firstWith fuel a doc o = .first x) ∨ firstWith fuel a doc o = .outOfFuel := by
   obtain ⟨hp, hsc, h⟩ := run_facts .first fuel a doc o E hacc hdoc
@@ -190,7 +210,7 @@ theorem first_total (fuel : Nat) (a : AST) (doc : Item) (o : Opts) (E : Env D (m
     have := (h hoof (hsc hb)).2 hlax
     simp [hoof, hp, this.1]
 
-theorem exists_total (fuel : Nat) (a : AST) (doc : Item) (o : Opts) (E : Env D (mkCtx a doc o) ff)
+theorem exists_total (fuel : Nat) (a : AST) (doc : Item) (o : Opts) (E : Env D F (mkCtx a doc o) ff)
     (hacc : AccG ff a.root = true) (hdoc : D doc) (hlax : a.lax = true) (hb : o.budget = none) :
     (∃ b, existsWith fuel a doc o = .bool b) ∨ existsWith fuel a doc o = .outOfFuel := by
   obtain ⟨hp, hsc, h⟩ := run_facts .exists fuel a doc o E hacc hdoc
@@ -204,7 +224,7 @@ theorem exists_total (fuel : Nat) (a : AST) (doc : Item) (o : Opts) (E : Env D (
     simp [hoof, hp, this.1, this.2]
 
 /-- `Query`, either mode, generic in the class: items, or the suppressible error -/
-theorem query_error_class (fuel : Nat) (a : AST) (doc : Item) (o : Opts) (E : Env D (mkCtx a doc o) ff)
+theorem query_error_class (fuel : Nat) (a : AST) (doc : Item) (o : Opts) (E : Env D F (mkCtx a doc o) ff)
     (hacc : AccG ff a.root = true) (hdoc : D doc) (hb : o.budget = none) :
     (∃ xs, queryWith fuel a doc o = .items xs) ∨ queryWith fuel a doc o = .error .verbose ∨
     queryWith fuel a doc o = .outOfFuel := by
@@ -371,6 +391,10 @@ example : run .query 40 ⟨p3, true, false⟩
 /-- a predicate path over a document that fits neither operand: `false`, no error -/
 example : run .query 40 ⟨p4, true, true⟩ (.arr [.int 1]) {} = .items [.bool false] := rfl
 example : run .match_ 40 ⟨p4, true, true⟩ (.obj [("c".toList, .int 5)]) {} = .bool true := rfl
+/-- a numeric literal as a bound is truncated: `$[1.75]` is `$[1]` -/
+example : Accessor (.const .root (some (.arrayIndex [idx (.numeric (F64.ofQ 7 4) none) none] none))) = true := by decide
+example : run .query 30 ⟨.const .root (some (.arrayIndex [idx (.numeric (F64.ofQ 7 4) none) none] none)), true, false⟩
+    (.arr [.int 10, .int 20, .int 30]) {} = .items [.int 20] := rfl
 /-- strict, same paths: the structural error; silent: nothing -/
 example : run .query 30 ⟨p1, false, false⟩ (.int 1) {} = .error .verbose := rfl
 example : run .query 30 ⟨p1, false, false⟩ (.int 1) { silent := true } = .items [] := rfl
